@@ -608,11 +608,14 @@ type opGrammar struct {
 	Missing  string     // operator left without a directive ("" = fully declared)
 	DupInLvl bool
 	Grouped  bool // levels with two binary operators are written as one grouped production with a rule handle
+	// where the directives stand: 0 before the rule, 1 after it, 2 the first level before and the others after
+	DirectivesAt int
 }
 
 func (o *opGrammar) text() string {
-	var b strings.Builder
-	b.WriteString("grammar ops;\n")
+	var b, head strings.Builder
+	head.WriteString("grammar ops;\n")
+	var levelLines []string
 	isBinary := map[string]bool{}
 	for _, op := range o.Binary {
 		isBinary[op] = true
@@ -640,7 +643,8 @@ func (o *opGrammar) text() string {
 		if o.DupInLvl && len(lvl) > 1 {
 			fmt.Fprintf(&b, " %q", lvl[1])
 		}
-		b.WriteString("\n")
+		levelLines = append(levelLines, b.String()+" ;\n")
+		b.Reset()
 	}
 	for _, op := range o.Binary {
 		if !grouped[op] {
@@ -651,8 +655,14 @@ func (o *opGrammar) text() string {
 		alts = append(alts, fmt.Sprintf("%q start", op))
 	}
 	alts = append(alts, `"(" start ")"`, `"n"`)
-	fmt.Fprintf(&b, "start = %s;\n", strings.Join(alts, " | "))
-	return b.String()
+	ruleLine := fmt.Sprintf("start = %s;\n", strings.Join(alts, " | "))
+	switch {
+	case o.DirectivesAt == 1:
+		return head.String() + ruleLine + strings.Join(levelLines, "")
+	case o.DirectivesAt == 2 && len(levelLines) > 0:
+		return head.String() + levelLines[0] + ruleLine + strings.Join(levelLines[1:], "")
+	}
+	return head.String() + strings.Join(levelLines, "") + ruleLine
 }
 
 func (o *opGrammar) infos() (binary, prefix map[string]ref.OpInfo) {
@@ -758,6 +768,7 @@ func genOps(t *rapid.T) *opGrammar {
 	}
 	o.DupInLvl = rapid.IntRange(0, 5).Draw(t, "dup") == 0
 	o.Grouped = rapid.IntRange(0, 2).Draw(t, "grouped") == 0
+	o.DirectivesAt = rapid.SampledFrom([]int{0, 0, 1, 2}).Draw(t, "directivesAt")
 	return o
 }
 
@@ -776,6 +787,9 @@ func TestOperatorGrammars(t *testing.T) {
 		}
 		if o.Grouped && strings.Contains(src, "<start") {
 			cls = append(cls, "grouped_level_with_rule_handle")
+		}
+		if o.DirectivesAt != 0 {
+			cls = append(cls, "directives_after_the_rule")
 		}
 		rec.Case(src, len(o.Levels) >= 2 || o.Missing != "", cls...)
 		rec.Sample("ops-"+strings.Join(cls, ","), src)
